@@ -155,6 +155,18 @@ func newAppEnv(cfg appCfg) (*appEnv, error) {
 			atomic.AddInt64(&progress, 1)
 		}
 	})
+	u.SetPingHandler(func(c *websocket.Conn, data string) {
+		_ = c.WriteMessage(websocket.PongMessage, []byte(data))
+		if v, ok := e.byRem.Load(remoteOf(c)); ok {
+			x := v.(*arun)
+			t := dl.Now()
+			x.mu.Lock()
+			x.handler = append(x.handler, t)
+			x.mu.Unlock()
+			x.logf("server: ping handler (%d bytes)", len(data))
+			atomic.AddInt64(&progress, 1)
+		}
+	})
 	u.OnClose(func(c *websocket.Conn, err error) {
 		if v, ok := e.byRem.Load(remoteOf(c)); ok {
 			x := v.(*arun)
@@ -441,7 +453,13 @@ func (x *arun) run(r *h.Run, e *appEnv, mon *dl.Monitor) {
 		time.Sleep(time.Duration(x.hs.Gaps[i]) * time.Millisecond)
 		if x.hs.Kind == "ws" {
 			x.logf("client: sends message %d", i)
-			if _, err := c.Write(maskedText([]byte(fmt.Sprintf("m%d-%d", x.hs.Index, i)), [4]byte{1, 2, 3, byte(i)})); err != nil {
+			frame := maskedText([]byte(fmt.Sprintf("m%d-%d", x.hs.Index, i)), [4]byte{1, 2, 3, byte(i)})
+			if x.hs.Index%4 == 3 && i > 0 {
+				// control frames are messages too: a ping must renew the keep-alive deadline
+				frame[0] = 0x89
+				x.shape = append(x.shape, "ping")
+			}
+			if _, err := c.Write(frame); err != nil {
 				tEOF, eofErr = dl.Now(), err
 				ok = false
 			}
